@@ -131,6 +131,9 @@ func oracleInProc(c *props.Case) props.Verdict {
 		// Counted as a hang only if it repeats in a fresh process.
 		return viaChild(c, true)
 	}
+	if os.Getenv("C20_DEBUG") != "" {
+		fmt.Fprintf(origStderr, "C20_DEBUG exit=%d\nstdout:\n%s\nstderr:\n%s\npanic:\n%s\n", res.Exit, res.Stdout, res.Stderr, res.Panic)
+	}
 	return judgeResult(c, res.Exit, res.Stderr, res.Panic)
 }
 
@@ -432,7 +435,20 @@ func writeTree(dir string, files tool.Files) error {
 	return nil
 }
 
+// binTimeout is the time limit of one subprocess: 20 s, ten times as
+// long for the 10 000-line example (see watchdog).
 const binTimeout = 20 * time.Second
+
+func binTimeoutFor(files tool.Files) time.Duration {
+	n := 0
+	for _, v := range files {
+		n += len(v)
+	}
+	if n > 100000 {
+		return 10 * binTimeout
+	}
+	return binTimeout
+}
 
 // oracleDrc runs `drc FILE1 FILE2` as a subprocess.
 func oracleDrc(c *props.Case) props.Verdict {
@@ -449,12 +465,13 @@ func oracleDrc(c *props.Case) props.Verdict {
 		return props.DiscardV("harness:cannot write files")
 	}
 	dev, spoc := devSpoc(c)
-	r := runProc(binTimeout, dir, baseEnv(dir), filepath.Join(bins, "drc"), dev, spoc)
+	limit := binTimeoutFor(c.Files)
+	r := runProc(limit, dir, baseEnv(dir), filepath.Join(bins, "drc"), dev, spoc)
 	if r.err != nil {
 		return props.DiscardV("harness:cannot start drc")
 	}
 	if r.timedOut {
-		return props.FailV("hang:"+c.Family, "drc %s %s did not finish within %v", dev, spoc, binTimeout)
+		return props.FailV("hang:"+c.Family, "drc %s %s did not finish within %v", dev, spoc, limit)
 	}
 	panicText := ""
 	if r.exit == 2 || strings.Contains(r.stderr, "\ngoroutine ") {
